@@ -1,6 +1,7 @@
 import Vflow.Proofs.Producer
 import Vflow.Proofs.SaramaLoop
 import Vflow.Gen.ProducerFacts
+import Vflow.Gen.ProducerRun
 /-!
 # C14 — the producer delivers every message once, unmodified, newline-terminated, in order
 
@@ -223,5 +224,71 @@ example :
 /-- what F12 did: with the message used as printf format, `%d` arrives as `%!d(MISSING)` — not
 `frame m`; the repaired write expression is the generated fact `gen_rawWrite_verbatim` -/
 example : writeIsVerbatim (.fprintf false "string(msg) + \"\\n\"" []) = false := by decide
+
+/-! ## Tie: the hand-over between a worker's send and the backend's `inputMsg`
+
+The hooks drive `setup` / `inputMsg` of the backends directly; what lies in between — `producer/producer.go` and the
+block of each protocol's `run()` that constructs the producer — is regenerated on every run and obliged to be exactly
+this: each backend name maps to its own type; `Run` sets the backend up (an error ends the start) and then calls
+`inputMsg` once, with the producer's own topic, channel and error counter, and waits for it; each protocol hands its
+producer its OWN message-queue channel, topic option and error counter; and nothing else in package `vflow` receives
+from or sends on a message-queue channel (the worker's send, the producer's channel, the queue length in the stats). -/
+
+/-- the producer block of a protocol's `run()` -/
+def expectedWiring (stats chan topic : String) : List String :=
+  ["if !opts.ProducerEnabled { return }",
+   "p := producer.NewProducer(opts.MQName)",
+   "p.MQConfigFile = path.Join(opts.VFlowConfigPath, opts.MQConfigFile)",
+   "p.MQErrorCount = &" ++ stats ++ ".stats.MQErrorCount",
+   "p.Logger = logger",
+   "p.Chan = " ++ chan,
+   "p.Topic = opts." ++ topic,
+   "if err := p.Run(); err != nil { logger.Fatal(err) }"]
+
+def expectedChanUses (file worker chan : String) : List String :=
+  [file ++ " (package level): " ++ chan ++ " = make(chan []byte, 1000)",
+   file ++ " " ++ worker ++ ": " ++ chan ++ " <- append([]byte{}, b...)",
+   file ++ " run: p.Chan = " ++ chan,
+   file ++ " status: MessageQueue: len(" ++ chan ++ ")"]
+
+theorem gen_producer_registry :
+    Gen.ProducerRun.registry =
+      ["\"kafka\" => new(KafkaSarama)", "\"kafka.sarama\" => new(KafkaSarama)",
+       "\"kafka.segmentio\" => new(KafkaSegmentio)", "\"nats\" => new(NATS)", "\"nsq\" => new(NSQ)",
+       "\"rawSocket\" => new(RawSocket)"] ∧
+    Gen.ProducerRun.newProducer =
+      ["var mqRegistered = map[string]MQueue{…}", "return &Producer{ MQ: mqRegistered[mqName], }"] ∧
+    Gen.ProducerRun.mqueue = ["setup(string, *log.Logger) error", "inputMsg(string, chan []byte, *uint64)"] := by
+  decide +kernel
+
+theorem gen_producer_run :
+    Gen.ProducerRun.run =
+      ["var ( wg sync.WaitGroup err error )",
+       "err = p.MQ.setup(p.MQConfigFile, p.Logger)",
+       "if err != nil { return err }",
+       "wg.Add(1)",
+       "go func() { defer wg.Done() topic := p.Topic p.MQ.inputMsg(topic, p.Chan, p.MQErrorCount) }()",
+       "wg.Wait()",
+       "return nil"] ∧
+    Gen.ProducerRun.shutdown = ["close(p.Chan)"] := by
+  decide +kernel
+
+theorem gen_producer_wiring :
+    Gen.ProducerRun.wiringIpfix = expectedWiring "i" "ipfixMQCh" "IPFIXTopic" ∧
+    Gen.ProducerRun.wiringSflow = expectedWiring "s" "sFlowMQCh" "SFlowTopic" ∧
+    Gen.ProducerRun.wiringV5 = expectedWiring "i" "netflowV5MQCh" "NetflowV5Topic" ∧
+    Gen.ProducerRun.wiringV9 = expectedWiring "i" "netflowV9MQCh" "NetflowV9Topic" := by
+  decide +kernel
+
+theorem gen_mq_channel_uses :
+    Gen.ProducerRun.mqChanUses =
+      expectedChanUses "ipfix.go" "ipfixWorker" "ipfixMQCh" ++
+      expectedChanUses "netflow_v5.go" "netflowV5Worker" "netflowV5MQCh" ++
+      expectedChanUses "netflow_v9.go" "netflowV9Worker" "netflowV9MQCh" ++
+      ["sflow.go (package level): sFlowMQCh = make(chan []byte, 1000)",
+       "sflow.go run: p.Chan = sFlowMQCh",
+       "sflow.go sFlowWorker: sFlowMQCh <- append([]byte{}, b...)",
+       "sflow.go status: MessageQueue: len(sFlowMQCh)"] := by
+  decide +kernel
 
 end Vflow.C14
